@@ -280,4 +280,88 @@ def c11_get (e : Env) (o : Obs) : Bool :=
   | .panic => false
   | _ => true
 
+/-! ### C09 — PRF results are the specified HMAC, per credential, gated on verification -/
+
+/-- HMAC-SHA-256 outputs for one pair of salts under one secret, as the statement specifies them -/
+def prfMatches (secret : Bytes) (salts : PrfValues) (out : PrfValues) : Bool :=
+  out.first == Sha256.hmac secret salts.first
+    && (match out.second with
+        | none => true
+        | some o2 => (match salts.second with | some s2 => o2 == Sha256.hmac secret s2 | none => false))
+
+/-- the secret a ceremony must use: the verification-gated one iff the user was verified, else the
+non-gated one (absent = the ceremony must fail) -/
+def secretFor (h : HmacSecret) (verified : Bool) : Option Bytes := if verified then some h.withUv else h.withoutUv
+
+def uvPerformed (ad : Bytes) : Bool := authDataFlags ad &&& 0x04 != 0
+
+/-- at registration the statement only bounds the choice: the gated secret only if the user was verified,
+the non-gated one otherwise (a verified registration may use either) -/
+def secretsAtCreation (h : HmacSecret) (verified : Bool) : List Bytes :=
+  (if verified then [h.withUv] else []) ++ h.withoutUv.toList
+
+/-- salts for the credential used: the entry listed under its id, else the default -/
+def saltsFor (cred : Bytes) (i : PrfIn) : Option PrfValues :=
+  match i.evalByCred.bind (fun l => l.find? (fun e => e.1 == cred)) with
+  | some (_, v) => some v
+  | none => i.eval
+
+def newSnap (pre post : List PkSnap) : Option PkSnap :=
+  match post.filter (fun p => !pre.any (fun q => q.credId == p.credId)) with
+  | [p] => some p
+  | _ => none
+
+/-- CTAP registration -/
+def c09_make (e : Env) (r : MakeReq) (o : Obs) : Option String :=
+  match o.res with
+  | .panic => some "panic"
+  | .makeOk ad prf =>
+    let stored := (newSnap e.pre o.store).bind (·.hmac)
+    match e.cfg.hmac with
+    | none => if prf.isSome then some "prf-output-without-capability" else if stored.isSome then some "secret-stored-without-capability" else none
+    | some h =>
+      let reported := (prf.map (·.enabled)).getD false
+      if (r.ext.bind (·.prf)).isSome && prf.isNone then some "prf-requested-but-no-output"
+      else if (r.ext.bind (·.prf)).isSome && reported != stored.isSome then some "enabled-reported-not-iff-secrets-stored"
+      else if !(r.ext.bind (·.prf)).isSome && prf.isSome then some "prf-output-without-request"
+      else match prf.bind (·.results) with
+        | none =>
+          -- evaluation at creation: results are due when configured, asked for, and a secret may be used
+          (match stored, (r.ext.bind (·.prf)).bind (·.eval) with
+           | some sec, some _ => if h.onMake && sec.withoutUv.isSome then some "no-results-although-evaluation-at-creation-is-on" else none
+           | _, _ => none)
+        | some out =>
+          if !h.onMake then some "results-although-evaluation-at-creation-is-off" else
+          match stored, (r.ext.bind (·.prf)).bind (·.eval) with
+          | some sec, some salts =>
+            if (secretsAtCreation sec (uvPerformed ad)).any (fun k => prfMatches k salts out) then none
+            else some "prf-result-is-not-the-hmac-of-the-salt-under-a-permitted-secret"
+          | _, _ => some "results-without-secret-or-input"
+  | _ => none
+
+/-- CTAP assertion -/
+def c09_get (e : Env) (r : GetReq) (preItems : List Passkey) (o : Obs) : Option String :=
+  match o.res with
+  | .panic => some "panic"
+  | .getOk cred ad _ prf _ =>
+    match e.cfg.hmac with
+    | none => if prf.isSome then some "prf-output-without-capability" else none
+    | some _ =>
+      match r.ext.bind (·.prf) with
+      | none => if prf.isSome then some "prf-output-without-request" else none
+      | some inp =>
+        match saltsFor cred inp with
+        | none => if prf.isSome then some "prf-output-without-input" else none
+        | some salts =>
+          match (preItems.find? (fun p => p.credId == cred)).bind (·.hmac) with
+          | none => some "assertion-succeeded-although-the-credential-has-no-secret"
+          | some sec =>
+            match secretFor sec (uvPerformed ad) with
+            | none => some "assertion-succeeded-without-an-eligible-secret"
+            | some k =>
+              match prf with
+              | none => some "prf-requested-but-no-output"
+              | some out => if prfMatches k salts out then none else some "prf-result-is-not-the-hmac-of-the-salt-under-the-right-secret"
+  | _ => none
+
 end PasskeyVerif.Auth.Spec
